@@ -660,6 +660,16 @@ impl Board {
     }
 }
 
+#[cfg(feature = "verif")]
+impl Board {
+    /// Verification hook: returns the stored combined occupancy set
+    #[doc(hidden)]
+    #[inline]
+    pub fn verif_all(&self) -> Bitboard {
+        self.all
+    }
+}
+
 impl PartialEq for Board {
     #[inline]
     fn eq(&self, other: &Board) -> bool {
